@@ -160,6 +160,15 @@ func runStreams(ctx *harness.Ctx, o streamOpts, fn func(t harness.T, leg string,
 			fn(t, "mutant", e, src)
 		}
 	})
+	ctx.Rapid("clause-permutations", o.mutant/4, func(t *rapid.T) {
+		src, kind := drawClausePermutation(t)
+		if len(src) > 4096 {
+			src = src[:4096]
+		}
+		for _, e := range drawEntries(t, kind, o.entriesPerSrc) {
+			fn(t, "clause-permutations", e, src)
+		}
+	})
 	// long inputs: many recoveries in one parse, very long lists, one huge Bad node
 	ctx.Rapid("long", o.long, func(t *rapid.T) {
 		var src, kind string
